@@ -36,7 +36,7 @@ func VerifC01RoundTrip() {
 	kfZeroRequired := false
 	switch rpc {
 	case 0:
-		req := &GetReq{ThingId: pathVal("get.thing_id"), Page: verif.Int32("get.page"), Q: verif.StringIn("get.q", verif.L(2), "ab &=+%"), Big: verif.Int64("get.big"), Flag: verif.Bool("get.flag")}
+		req := &GetReq{ThingId: pathVal("get.thing_id"), Page: verif.Int32("get.page"), Q: verif.StringIn("get.q", verif.L(2), "ab &=+%,;"), Big: verif.Int64("get.big"), Flag: verif.Bool("get.flag")}
 		verif.Assume(req.ThingId != "")
 		kfZeroRequired = req.Big == 0
 		resp, err = c.GetThing(ctx, req)
